@@ -139,6 +139,40 @@ def min_delay_violations(scn: dict, C: Counter) -> List[dict]:
             if not attained and len(paths) < 200:
                 out.append({"kind": "cached_minimum_delay_is_attained_by_no_path", "src": src.sid, "dst": dst.sid,
                             "cached": repr(cached), "paths": [repr(p[0]) for p in paths][:6]})
+    # the same for the per-pair input delay (what a simulator waits for): a lower bound of the delay of every
+    # data connection between the pair, attained by one of them (or by an async_requests connection)
+    per_pair: Dict[tuple, List[Any]] = {}
+    for s_ in sims.values():
+        for (src_sim, delay) in s_.pulled_inputs:
+            per_pair.setdefault((src_sim, s_), []).append(delay)
+        for port, dests in s_.output_to_push.items():
+            for dest_sim, delay, _dp in dests:
+                per_pair.setdefault((s_, dest_sim), []).append(delay)
+    async_pairs = {(c["src"], c["dst"]) for c in scn["conns"] if c.get("async")}
+    for (src, dst), delays in per_pair.items():
+        cached = dst.input_delays.get(src)
+        if cached is None:
+            out.append({"kind": "no_input_delay_for_connected_pair", "src": src.sid, "dst": dst.sid})
+            continue
+        C["inputdelay_pairs"] += 1
+        if len(set(map(repr, delays))) >= 2:
+            C["inputdelay_pairs_with_different_connection_delays"] += 1
+        attained = (src.sid, dst.sid) in async_pairs
+        for d in delays:
+            same = True
+            for t in it.product(range(3), repeat=cached.pre_length):
+                T = TT(*t)
+                a, b = T + cached, T + d
+                if b < a:
+                    out.append({"kind": "input_delay_is_not_a_lower_bound", "src": src.sid, "dst": dst.sid,
+                                "cached": repr(cached), "connection_delay": repr(d), "departure": list(t)})
+                    return out
+                if a != b:
+                    same = False
+            attained = attained or same
+        if not attained:
+            out.append({"kind": "input_delay_is_attained_by_no_connection", "src": src.sid, "dst": dst.sid,
+                        "cached": repr(cached), "connection_delays": sorted(set(map(repr, delays)))})
     try:
         world.shutdown()
     except Exception:  # noqa: BLE001
@@ -416,7 +450,8 @@ def evidence(m, tier, seed):
                 "pair of equal shape is compared with the real operators and with the pointwise order of the "
                 "semantic model over all departure times in [0,maxval+1]^pre_length; <=, >=, != agree with <, ==, >; (counters mindelay_*) the "
                 "minimum delays that the real setup caches for generated scenarios (triggering ancestors) are a lower bound of the "
-                "hop-by-hop arrival along every triggering path for all departure times in [0,2]^n and are attained by a path; all chaining pairs for the action "
+                "hop-by-hop arrival along every triggering path for all departure times in [0,2]^n and are attained by a path, and (counters inputdelay_*) the "
+                "per-pair input delay is a lower bound of, and attained by, the delays of the pair's connections; all chaining pairs for the action "
                 "law; distinct_nontrivial = distinct ordered pairs the implementation accepted as comparable",
         "exhaustive": True,
         "transitivity_exhaustive": bool(c.get("transitivity_exhaustive")),
